@@ -398,6 +398,10 @@ func (cc *connectUnaryClientConn) validateResponse(response *http.Response) *Err
 			(*connectWireError)(&serverErr),
 			json.Unmarshal,
 		); err == nil {
+			if serverErr.code == 0 {
+				// The body carried no usable code: fall back to the HTTP status.
+				serverErr.code = connectHTTPToCode(response.StatusCode)
+			}
 			serverErr.meta = cc.responseHeader.Clone()
 			mergeHeaders(serverErr.meta, cc.responseTrailer)
 			return &serverErr
@@ -706,6 +710,10 @@ func (u *connectStreamingUnmarshaler) Unmarshal(message any) *Error {
 	}
 	u.trailer = end.Trailer
 	u.endStreamErr = (*Error)(end.Error)
+	if u.endStreamErr != nil && u.endStreamErr.code == 0 {
+		// An error without a usable code is still an error.
+		u.endStreamErr.code = CodeUnknown
+	}
 	return errSpecialEnvelope
 }
 
